@@ -52,6 +52,13 @@ type PtrV struct {
 	SymN int
 }
 
+// WinPtrV is a pointer to an array that is a window of a slice's backing store (the result of
+// a slice-to-array-pointer conversion).
+type WinPtrV struct {
+	S SliceV
+	N int
+}
+
 type IfaceV struct {
 	T types.Type // nil => nil interface
 	V Value
